@@ -103,12 +103,20 @@ Arguments all_noexcept {St E} p.
 (* ------------------------------------------------------------------------------------------------ *)
 (** * The library scopes                                                                              *)
 
-(* F17: a map header announcing one member, then end of input.  ReadKey throws ParsingException; the scope
-   destructor then tries to skip the member that was never read, SkipValue throws again: std::terminate *)
-Lemma mp_truncated_map_terminates :
-  throws mp_load_map (mp_init [0x81%N]) EParse /\ mp_run [0x81%N] = Terminate.
+(* F17 as it was before /repo commits 0863f96 / 3580349: a map header announcing one member, then end of input.
+   ReadKey throws ParsingException; the unguarded scope destructor tries to skip the member that was never read,
+   SkipValue throws again: std::terminate.  With the guard both historical witnesses are catchable exceptions. *)
+Lemma mp_unguarded_dtor_terminates :
+  exec mp_load_map_unguarded (mp_init [0x81%N]) = Terminate /\
+  exec mp_load_map_unguarded (mp_init [0x81; 0xA1]%N) = Terminate.
+Proof. split; vm_compute; reflexivity. Qed.
+
+Lemma mp_truncated_map_now_err :
+  (exists s, mp_run [0x81%N] = Err EParse s) /\ (exists s, mp_run [0x81; 0xA1]%N = Err EParse s).
+Proof. split; eexists; vm_compute; reflexivity. Qed.
+
+Lemma mp_truncated_map_throws : throws mp_load_map (mp_init [0x81%N]) EParse.
 Proof.
-  split; [|vm_compute; reflexivity].
   unfold mp_load_map. apply t_scope. eapply t_seq2.
   - apply c_act. vm_compute. reflexivity.
   - apply t_scope. eapply t_seq2.
@@ -187,7 +195,7 @@ Proof.
 Qed.
 
 (* ------------------------------------------------------------------------------------------------ *)
-(** * The repaired MsgPack scope: a destructor that cannot throw makes every failure catchable         *)
+(** * The MsgPack scope (repaired): a destructor that cannot throw makes every failure catchable        *)
 
 Lemma skip_value_no_term : forall s, skip_value s <> Terminate.
 Proof.
@@ -201,7 +209,23 @@ Proof.
   pose proof (skip_value_no_term (set_key s false)). destruct (skip_value (set_key s false)); congruence.
 Qed.
 
-Lemma acts_mp_repaired : acts_no_terminate mp_load_map_repaired.
+Lemma skip_pairs_no_term : forall n s, skip_pairs n s <> Terminate.
+Proof.
+  induction n as [|n IH]; intro s; cbn [skip_pairs]; [discriminate|].
+  pose proof (skip_value_no_term s) as H1. destruct (skip_value s) as [s1|e1 s1|]; [|discriminate|congruence].
+  pose proof (skip_value_no_term s1) as H2. destruct (skip_value s1) as [s2|e2 s2|]; [|discriminate|congruence].
+  apply IH.
+Qed.
+
+Lemma dtor_read_object_scope_total : total dtor_read_object_scope.
+Proof.
+  intro s. unfold dtor_read_object_scope, dtor_skip_unread.
+  pose proof (reset_key_no_term s). destruct (reset_key s) as [s1|e s1|]; [|eauto|congruence].
+  pose proof (skip_pairs_no_term (mp_size s1 - mp_idx s1) s1).
+  destruct (skip_pairs (mp_size s1 - mp_idx s1) s1); [eauto|eauto|congruence].
+Qed.
+
+Lemma acts_mp : acts_no_terminate mp_load_map.
 Proof.
   cbn. split; [|split].
   - intro s. unfold open_object_scope, unmodelled. destruct (byte_at s); [|discriminate].
@@ -215,22 +239,18 @@ Proof.
     + apply reset_key_no_term.
 Qed.
 
-Lemma dtors_mp_repaired : dtors_total mp_load_map_repaired.
+Lemma dtors_mp : dtors_total mp_load_map.
 Proof.
   cbn. repeat split.
   - intro s. induction (mp_size s) as [|k IH]; cbn; [exact I|]. split; [repeat split|exact IH].
-  - intro s. unfold dtor_read_object_scope_repaired. destruct (dtor_read_object_scope s); eauto.
+  - apply dtor_read_object_scope_total.
   - intro s. eauto.
 Qed.
 
-Theorem mp_repaired_never_terminates : forall inp, exec mp_load_map_repaired (mp_init inp) <> Terminate.
-Proof. intro inp. apply never_terminate; [apply dtors_mp_repaired|apply acts_mp_repaired]. Qed.
+(* full strength for the MsgPack map load, every input: never std::terminate ... *)
+Theorem mp_never_terminates : forall inp, mp_run inp <> Terminate.
+Proof. intro inp. apply never_terminate; [apply dtors_mp|apply acts_mp]. Qed.
 
-(* and it reports the same exception that the body threw *)
-Theorem mp_repaired_propagates : forall inp e,
-  throws mp_load_map_repaired (mp_init inp) e -> exists s, exec mp_load_map_repaired (mp_init inp) = Err e s.
-Proof. intros inp e. apply propagation. apply dtors_mp_repaired. Qed.
-
-(* non-vacuity of the hypothesis `throws`: the F17 witness throws EParse in the repaired program too *)
-Example mp_repaired_witness : exists s, exec mp_load_map_repaired (mp_init [0x81%N]) = Err EParse s.
-Proof. eexists. vm_compute. reflexivity. Qed.
+(* ... and the caller sees the exception that the body threw *)
+Theorem mp_propagates : forall inp e, throws mp_load_map (mp_init inp) e -> exists s, mp_run inp = Err e s.
+Proof. intros inp e. apply propagation. apply dtors_mp. Qed.
